@@ -106,6 +106,19 @@ func splitConj(e ast.Expr) []ast.Expr {
 				return out
 			}
 		}
+		// forall(i, lo, hi, a && b)  ==>  forall(i, lo, hi, a), forall(i, lo, hi, b)
+		if id, ok := x.Fun.(*ast.Ident); ok && (id.Name == "forall" && len(x.Args) == 4 || id.Name == "forallv" && len(x.Args) == 3) {
+			last := len(x.Args) - 1
+			rs := splitConj(x.Args[last])
+			if len(rs) > 1 {
+				var out []ast.Expr
+				for _, r := range rs {
+					args := append(append([]ast.Expr{}, x.Args[:last]...), r)
+					out = append(out, &ast.CallExpr{Fun: x.Fun, Args: args})
+				}
+				return out
+			}
+		}
 	}
 	return []ast.Expr{e}
 }
@@ -1060,6 +1073,97 @@ func (ev *evalCtx) call(x *ast.CallExpr, want types.Type) (string, types.Type, e
 			return "", nil, fmt.Errorf("eq: sequence of unknown length")
 		}
 		return fmt.Sprintf("(and (= %s %s) (forall ((%s (_ BitVec 64))) (=> (and (bvsle #x0000000000000000 %s) (bvslt %s %s)) (= %s %s))))", la, lb, qv, qv, qv, la, seqAt(a, qv), seqAt(b, qv)), boolT, nil
+	case "list_pos":
+		// list_pos(l, e): index of element e in list l, -1 when e is not in l
+		ev.c.te.usesLists = true
+		if err := argc(2); err != nil {
+			return "", nil, err
+		}
+		l, _, err := ev.expr(x.Args[0], nil)
+		if err != nil {
+			return "", nil, err
+		}
+		e, _, err := ev.expr(x.Args[1], nil)
+		if err != nil {
+			return "", nil, err
+		}
+		return fmt.Sprintf("(select (select %s %s) %s)", ev.H("ghost:lpos"), l, e), intT, nil
+	case "allocated":
+		// allocated(p): p (pointer or slice) refers to an object that exists in this state
+		if err := argc(1); err != nil {
+			return "", nil, err
+		}
+		a, t, err := ev.expr(x.Args[0], nil)
+		if err != nil {
+			return "", nil, err
+		}
+		al := ev.c.hOf(ev.heap, "alloc")
+		switch ev.c.te.sortOf(t) {
+		case "Loc":
+			return fmt.Sprintf("(< (base %s) %s)", a, al), boolT, nil
+		case "Slice":
+			return fmt.Sprintf("(< (base (s_arr %s)) %s)", a, al), boolT, nil
+		}
+		return "", nil, fmt.Errorf("allocated of %s", t)
+	case "forallv":
+		// forallv(x, T, body): universal quantification over all values of Go type T
+		if err := argc(3); err != nil {
+			return "", nil, err
+		}
+		v, ok := x.Args[0].(*ast.Ident)
+		if !ok {
+			return "", nil, fmt.Errorf("forallv: first argument must be a variable name")
+		}
+		qt := ev.lookupType(x.Args[1])
+		if qt == nil {
+			return "", nil, fmt.Errorf("forallv: unknown type %s", exprString(x.Args[1]))
+		}
+		*ev.qn++
+		qv := fmt.Sprintf("q%d_%s", *ev.qn, v.Name)
+		n := *ev
+		n.bound = map[string]envVal{}
+		for k, b := range ev.bound {
+			n.bound[k] = b
+		}
+		n.bound[v.Name] = envVal{qv, qt}
+		if n.old != nil {
+			o := *n.old
+			o.bound = n.bound
+			n.old = &o
+		}
+		body, err := n.boolExpr(x.Args[2])
+		if err != nil {
+			return "", nil, err
+		}
+		return fmt.Sprintf("(forall ((%s %s)) %s)", qv, ev.c.te.sortOf(qt), body), boolT, nil
+	case "list_len", "list_at":
+		// ghost view of a container/list.List: its elements, front first
+		ev.c.te.usesLists = true
+		l, lt, err := ev.expr(x.Args[0], nil)
+		if err != nil {
+			return "", nil, err
+		}
+		if ev.c.te.sortOf(lt) != "Loc" {
+			return "", nil, fmt.Errorf("%s: first argument must be a *list.List", id.Name)
+		}
+		if id.Name == "list_len" {
+			if err := argc(1); err != nil {
+				return "", nil, err
+			}
+			return fmt.Sprintf("(select %s %s)", ev.H("ghost:llen"), l), intT, nil
+		}
+		if err := argc(2); err != nil {
+			return "", nil, err
+		}
+		i, it, err := ev.expr(x.Args[1], intT)
+		if err != nil {
+			return "", nil, err
+		}
+		et := ev.c.P.listElemPtr()
+		if et == nil {
+			return "", nil, fmt.Errorf("container/list is not loaded")
+		}
+		return fmt.Sprintf("(select (select %s %s) %s)", ev.H("ghost:lseq"), l, ev.to64(i, it)), et, nil
 	case "fresh":
 		// fresh(x): x (pointer or slice) refers to an object allocated during this call
 		// (or is nil) - it cannot alias anything the caller passed in
@@ -1425,6 +1529,15 @@ func (ev *evalCtx) modOne(ms *modSet, e ast.Expr) error {
 			switch id.Name {
 			case "loc":
 				return ev.modOne(ms, call.Args[0])
+			case "list":
+				// the ghost view (length and element sequence) of a *list.List
+				ev.c.te.usesLists = true
+				a, _, err := ev.expr(call.Args[0], nil)
+				if err != nil {
+					return err
+				}
+				ms.exact = append(ms.exact, modLeaf{"ghost:llen", a}, modLeaf{"ghost:lseq", a}, modLeaf{"ghost:lpos", a})
+				return nil
 			case "elems":
 				a, t, err := ev.expr(call.Args[0], nil)
 				if err != nil {
